@@ -94,7 +94,8 @@ def hx(b) -> str:
 
 def ecls(e) -> str:
     c = err_class(e)
-    return "Other" if c.startswith("Other") else c
+    # the model reports read-only position setters (AttributeError / NotImplementedError) as Err.other
+    return "Other" if (c.startswith("Other") or c == "AttributeError") else c
 
 
 def pix_digest(layer) -> str:
